@@ -161,9 +161,9 @@ def spec_apply_line(c, res):
                                                ",".join(ov) or "-", hx(res["out"]), res["failed"], hx(res["rej"]))
 
 
-def run_drifted(run_, prop, rng, n, key):
+def run_drifted(run_, prop, rng, n, key, fam=None):
     """Family 'drifted' through implementation, model and the extracted oracle spec_apply; key = 'C02'|'C03'|'C04'."""
-    fam = family_drifted(rng, n)
+    fam = family_drifted(rng, n) if fam is None else fam
     for c in fam:
         if rng.random() < 0.1:
             c["oldp"] = "/dev/null"
@@ -190,4 +190,82 @@ def run_drifted(run_, prop, rng, n, key):
     for i, v in zip(idx, verdicts):
         if (key + "=0") in v or not v.startswith("SPEC"):
             bad.append((i, "apply_patch result violates %s (oracle: %s)" % (key, v)))
+    return cases, impl, model, mism, bad
+
+
+def family_multi(rng, n):
+    """longer files with several hunks (3+), uniform and non-uniform drift, frequent duplicate blocks: what accumulated offsets are about"""
+    out = []
+    for _ in range(n):
+        blocks = [[(gen.rand_text(rng, True), "L") for _ in range(rng.randint(2, 4))] for _ in range(rng.randint(2, 4))]
+        a = []
+        for _ in range(rng.randint(4, 8)):
+            a += rng.choice(blocks)
+            if rng.random() < 0.3:
+                a.append((gen.rand_text(rng), "L"))
+        ops = [(" ", l) for l in a]
+        for _ in range(rng.randint(3, 5)):
+            i = rng.randrange(len(ops))
+            if ops[i][0] == " ":
+                ops[i] = ("-", ops[i][1])
+                ops.insert(i + 1, ("+", (gen.rand_text(rng, True) + "!", "L")))
+        hs = gen.hunks_from_ops(ops, rng.choice([1, 1, 2, 3]))
+        if len(hs) < 2:
+            continue
+        f = list(a)
+        k = rng.choice([0, 1, 2, 3, 4, 5])
+        r = rng.random()
+        if r < 0.5:
+            f = [("top%d" % i, "L") for i in range(k)] + f            # every hunk drifts by the same amount
+        elif r < 0.8:
+            f = gen.drift(rng, f, strength=0.9)
+        else:
+            cut = rng.randrange(len(f)); f = f[:cut] + [("mid", "L")] * k + f[cut:]
+        o = dict(F=rng.choice([0, 1, 2, 2, 3]), l=0, nl="native", f=1, v=1)
+        out.append(dict(f=f, hs=hs, opts=o))
+    return out
+
+
+def family_reapply(rng, n):
+    """the patch is already applied (or applied with drift) and is run again without -f: -t reverses, -N skips"""
+    out = []
+    for _ in range(n):
+        a, ops, b = gen_pair(rng, maxlen=12)
+        ops = fix_nonl(ops)
+        a = [l for o, l in ops if o != "+"]
+        b = [l for o, l in ops if o != "-"]
+        hs = gen.hunks_from_ops(ops, rng.choice([1, 2, 3, 3]))
+        if not hs:
+            continue
+        f = b if rng.random() < 0.4 else gen.drift(rng, b, strength=0.9)
+        o = dict(F=rng.choice([0, 0, 1, 1, 2, 3]), l=rng.choice([0, 0, 1]), nl="native", v=1)
+        o[rng.choice(["t", "t", "N"])] = 1
+        if rng.random() < 0.3:
+            o["R"] = 1
+            f = a if rng.random() < 0.4 else gen.drift(rng, a, strength=0.9)
+        out.append(dict(f=f, hs=hs, opts=o))
+    return out
+
+
+def run_family_plain(run_, fam, label):
+    """correspondence only (no forward-replay oracle: the reversed-patch decision changes which hunks are applied)"""
+    cases = [apply_case(opt_str(**c["opts"]), "unified", c["f"], c["hs"]) for c in fam]
+    impl, model = run_both(cases)
+    mism = [i for i in range(len(cases)) if impl[i] != model[i]]
+    spec_lines, idx = [], []
+    for i, c in enumerate(cases):
+        r = impl[i]
+        res = parse_result(r)
+        cls = "THROW" if res is None else ("reversed" if "Assuming -R" in res["msgs"] else ("skipped" if r.find("skipped=1") >= 0 else "plain"))
+        run_.count(c, True, label + " " + cls)
+        if cls == "reversed":
+            # the run went on with the reversed patch: its verdicts must be admissible placements of the reversed hunks within -F
+            fc = dict(fam[i]); fc["opts"] = dict(fam[i]["opts"]); fc["opts"]["R"] = 0 if fam[i]["opts"].get("R") else 1
+            sl = spec_apply_line(fc, res)
+            if sl:
+                spec_lines.append(sl); idx.append(i)
+    bad = []
+    for i, v in zip(idx, run_model(spec_lines) if spec_lines else []):
+        if "C02=0" in v or "C03=0" in v or "C04=0" in v:
+            bad.append((i, "after 'Assuming -R' the reported placements are not admissible for the reversed hunks (oracle: %s)" % v))
     return cases, impl, model, mism, bad
